@@ -298,6 +298,36 @@ namespace xsv
             { 1, rc::gen::map(rc::gen::inRange<uint64_t>(0, 64), [=](uint64_t v) { return (smax - v) & m; }) },
             { 1, rc::gen::map(rc::gen::inRange<uint64_t>(0, 64), [=](uint64_t v) { return (smin + v) & m; }) },
             { 1, rc::gen::map(rc::gen::inRange<uint64_t>(0, 64), [=](uint64_t v) { return (m - v) & m; }) },
+            // integers that do not fit a 24- / 53-bit significand, at and around the rounding decision: a significand M with
+            // its top bit set, shifted left by s >= 1, plus {0, half - 1, half (exact tie), half + 1, 2^s - 1}; either sign.
+            // (int -> float conversions round here; kernels that split the integer in two parts double-round exactly here.)
+            { 2, rc::gen::map(rc::gen::tuple(rc::gen::arbitrary<uint64_t>(), rc::gen::inRange<int>(0, 5), rc::gen::inRange<int>(0, 64), rc::gen::arbitrary<bool>()), [=](std::tuple<uint64_t, int, int, bool> q) {
+                  const int b = tbits(t);
+                  const int P = (std::get<2>(q) & 1) && b > 25 ? 24 : (b > 54 ? 53 : (b > 25 ? 24 : b - 2));
+                  const int smax_ = b - P; // s in [1, b - P]
+                  if (smax_ < 1)
+                      return mix64(std::get<0>(q)) & m;
+                  const int sft = 1 + (std::get<2>(q) >> 1) % smax_;
+                  uint64_t M = (mix64(std::get<0>(q)) & ((1ull << P) - 1)) | (1ull << (P - 1));
+                  if (std::get<0>(q) % 5 == 0)
+                      M = (1ull << P) - 1 - (std::get<0>(q) % 3); // all ones: rounding carries into the next binade
+                  if (std::get<0>(q) % 7 == 0)
+                      M = (1ull << (P - 1)) + (std::get<0>(q) % 3); // just above a power of two
+                  const uint64_t half = 1ull << (sft - 1);
+                  uint64_t low = 0;
+                  switch (std::get<1>(q))
+                  {
+                  case 0: low = 0; break;
+                  case 1: low = half - 1; break;
+                  case 2: low = half; break;
+                  case 3: low = (half + 1) & ((1ull << sft) - 1); break;
+                  default: low = (1ull << sft) - 1; break;
+                  }
+                  uint64_t v = (sft + P >= 64 ? (M << (64 - P)) >> (64 - P - sft) : (M << sft)) | low;
+                  if (std::get<3>(q))
+                      v = 0 - v;
+                  return v & m;
+              }) },
         }));
     }
     std::vector<std::pair<int, rc::Gen<uint64_t>>> fp_gen_classes(TypeId t); // ops_fp.hpp
